@@ -330,7 +330,9 @@ def get(invalid_methods=('POST', 'PUT', 'DELETE'), debug=False, **kwargs):
                         '[0-9]{1,18}', atoms[0]):
                     raise cherrypy.HTTPError(
                         400, 'Invalid Cache-Control header')
-                max_age = int(atoms[0])
+                # The client may only ask for a response that is fresher
+                # than the cache's own limit, never for a staler one.
+                max_age = min(max_age, int(atoms[0]))
                 break
             elif directive == 'no-cache':
                 if debug:
